@@ -60,6 +60,13 @@ def _extend_equals_build(i, j, swap, base_k=0) -> bool:
     if validate_schema(together):
         return None if (i != j or base_k) else False
     base = build_schema(a)
+    if base_k:
+        # the property quantifies over extension documents that are valid against the base: on a base that
+        # already has a mutation / subscription root, a piece that (re)defines that root is not one of them
+        from graphql.validation.validate import validate_sdl
+
+        if validate_sdl(parse(b), base):
+            return None
     before = print_schema(base)
     types_before = dict(base.type_map)
     extended = extend_schema(base, parse(b))
